@@ -189,3 +189,55 @@ def accel(vc):
         sgn = 1.0 if ref[2] >= 0 else -1.0
         ok = ok and vc.eq(pc[:3], ntw2eci(ref, np.array([0, 0, sgn * mag, 0, 0, 0]))[:3], 1e-9)
     vc.ensure("O-C15-accel.maneuvers", ok)
+
+
+@obligation("C15", "multi_burn_bounded", ensures=["B-C15-multi.separate-burns", "B-C15-multi.back-to-back-later-first", "B-C15-multi.back-to-back-earlier-first"],
+            fns=[CE + "Celestial.propagate", CE + "Celestial._applyEvents", CE + "Celestial._prepEvents", FT + "ScheduledFiniteThrust.__call__", FT + "ScheduledFiniteThrust.getStateChangeCallback"],
+            mode="R", native_only=True, samples=12,
+            bounded="BOUNDED stand-in, not a proof: 12 (quick) / 120 (thorough) random cases per run of the real perturbed propagator (J2 only) over 200 s with two finite burns on one agent, interval ends off the step grid "
+                    "(several terminal events inside scipy's solve_ivp are outside the per-event contracts above)",
+            note="two finite burns on one agent each deliver acceleration x duration: compared with a piecewise propagation with the thrust switched by hand. separate-burns: a gap of at least a millisecond between them; "
+                 "back-to-back: the second starts at the bit-identical time the first ends, queued (later burn, earlier burn) resp. (earlier burn, later burn)")
+def multi_burn_bounded(vc):
+    import resonaate.dynamics.integration_events.finite_thrust as ft
+    from resonaate.dynamics.special_perturbations import SpecialPerturbations
+    from resonaate.physics.time.stardate import JulianDate
+    from resonaate.common.labels import GeopotentialModel
+    vc.install(FT + "@EventStack", _NS(pushEvent=lambda rec: None))
+    rng = np.random.default_rng(vc.int("seed", 0, 10 ** 9))
+    mk = lambda: SpecialPerturbations(JulianDate(2459000.5), _NS(model=GeopotentialModel.EGM96, degree=2, order=0),
+                                      _NS(third_bodies=[], solar_radiation_pressure=False, general_relativity=False), 0.02)
+    x0 = np.array([7000.0, 0.0, 0.0, 0.0, 7.546, 0.0])
+    a1, a2 = rng.normal(size=3) * 1e-5, rng.normal(size=3) * 1e-5
+    s1 = float(rng.uniform(5, 60))
+    e1 = s1 + float(rng.uniform(10, 60))
+
+    def run(gap, earlier_first):
+        s2 = e1 + gap
+        e2 = s2 + float(rng.uniform(10, 60))
+        A = ft.ScheduledFiniteBurn(s1, e1, partial(ft.eciBurn, acc_vector=a1.copy()), 1)
+        B = ft.ScheduledFiniteBurn(s2, e2, partial(ft.eciBurn, acc_vector=a2.copy()), 1)
+        got = mk().propagate(0.0, 200.0, x0.copy(), scheduled_events=[A, B] if earlier_first else [B, A])
+        # reference: the same force model with the thrust added by hand on each piece
+        s, now = x0.copy(), 0.0
+        for until, acc in ((s1, None), (e1, a1), (s2, None), (e2, a2), (200.0, None)):
+            if until > now + 1e-9:
+                d = mk()
+                if acc is not None:
+                    d.finite_thrust = lambda st, acc=acc: np.concatenate([acc, np.zeros(3)])
+                    s = np.asarray(_piece(d, now, until, s))
+                else:
+                    s = d.propagate(now, until, s)
+                now = until
+        return float(np.linalg.norm(got[3:] - s[3:]))
+    vc.ensure("B-C15-multi.separate-burns", run(float(rng.uniform(1e-3, 20)), True) < 1e-8 and run(float(rng.uniform(1e-3, 20)), False) < 1e-8)
+    vc.ensure("B-C15-multi.back-to-back-later-first", run(0.0, False) < 1e-8)
+    vc.ensure("B-C15-multi.back-to-back-earlier-first", run(0.0, True) < 1e-8)
+
+
+def _piece(dyn, t0, t1, state):
+    """integrate one piece with dyn.finite_thrust fixed (propagate() would reset it): scipy on the real derivative function"""
+    from scipy.integrate import solve_ivp
+    sol = solve_ivp(partial(dyn._differentialEquation, check_collision=True), (t0, t1), np.asarray(state, dtype=float), method="RK45", rtol=dyn.RELATIVE_TOL,
+                    atol=dyn.ABSOLUTE_TOL * np.ones(6))
+    return sol.y[:, -1]
